@@ -450,3 +450,108 @@ PROPS["C12"] = {
     "assumptions": ["staking Slash/Jail, distribution AllocateTokensToValidator and bank transfers behave as observed through their APIs "
                     "(parameters of the model)", "reward coins are a single denom in the model (per-denom independent in the code)"],
 }
+
+
+# ------------------------------------------------------------------------------------------------ C11
+import re as _re
+
+DENOM_RE = _re.compile(r"^[a-zA-Z][a-zA-Z0-9/:._-]{2,127}$")
+
+
+def parse_rates_py(rates, decs):
+    out, seen = [], set()
+    for part in rates.split("|"):
+        if len(part) <= 2 or part[0] != "(" or part[-1] != ")":
+            return None
+        sp = part[1:-1].split(",")
+        if len(sp) != 2:
+            return None
+        ps = sp[0].split(":")
+        if len(ps) != 2 or not ps[0] or not ps[1] or not DENOM_RE.match(ps[0]) or not DENOM_RE.match(ps[1]):
+            return None
+        if decs.get(sp[1]) is None:
+            return None
+        if sp[0] in seen:
+            return None
+        seen.add(sp[0])
+        out.append((sp[0], decs[sp[1]]))
+    return out
+
+
+def parse_votes_obs(ob):
+    a = ob.split()
+    st = {"pv": {}, "v": {}, "f": {}}
+    for it in plist(sec(a, "PV")):
+        f = it.split("/")
+        st["pv"][f[0]] = (f[1], int(f[2]))
+    for it in plist(sec(a, "V")):
+        k, ts = it.split("@")
+        st["v"][k] = ts
+    for it in plist(sec(a, "F")):
+        f = it.split("/")
+        st["f"][f[0]] = f[1]
+    return a[0], st
+
+
+def oracle_c11(run, ops, impl):
+    out = []
+    st = {"pv": {}, "v": {}, "f": {}}
+    bonded, wl, vp = {}, [], 1
+    for i, (op, ob) in enumerate(zip(ops, impl)):
+        a = op.split()
+        if a[1] == "reset":
+            vp, wl = int(a[2]), plist(a[3])
+            bonded = {x.split("/")[0]: x.split("/")[1] == "1" for x in plist(a[4])}
+            st = {"pv": {}, "v": {}, "f": {}}
+            continue
+        if ob.startswith("panic"):
+            out.append(V("C11:panic", {"line": i + 1, "op": op}))
+            continue
+        res, new = parse_votes_obs(ob)
+        if a[1] == "setperiod":
+            vp = int(a[2])
+        elif a[1] == "setbonded":
+            bonded[a[2]] = a[3] == "1"
+        elif a[1] in ("prevote", "vote"):
+            h, val, feeder = int(a[2]), a[3], a[4]
+            auth = (feeder == val or st["f"].get(val) == feeder) and bonded.get(val) is True
+            if a[1] == "prevote":
+                want = auth and a[5] == "1"
+                if (res == "ok") != want:
+                    out.append(V("C11:prevote-acceptance", {"line": i + 1, "op": op, "result": res, "authorised": auth}))
+                if res != "ok" and new != st:
+                    out.append(V("C11:rejected-prevote-changed-state", {"line": i + 1, "op": op}))
+            else:
+                rates = bytes.fromhex(a[5]).decode() if a[5] != "-" else ""
+                decs = {}
+                for it in plist(a[6]):
+                    k, v = it.split("=")
+                    decs[bytes.fromhex(k).decode() if k != "-" else ""] = None if v == "err" else int(v)
+                pv = st["pv"].get(val)
+                tuples = parse_rates_py(rates, decs)
+                want = bool(auth and pv is not None and ((h // vp) - (pv[1] // vp)) % 2 ** 64 == 1 and tuples is not None and
+                            all(t[0] in wl for t in tuples) and pv[0] == a[7])
+                if (res == "ok") != want:
+                    out.append(V("C11:vote-acceptance", {"line": i + 1, "op": op[:300], "result": res, "authorised": auth, "prevote": pv, "votePeriod": vp,
+                                                         "hash_matches": pv is not None and pv[0] == a[7]}))
+                if res == "ok" and val in new["pv"]:
+                    out.append(V("C11:prevote-not-consumed", {"line": i + 1, "op": op[:300]}))
+                if res != "ok" and new != st:
+                    out.append(V("C11:rejected-vote-changed-state", {"line": i + 1, "op": op[:300]}))
+        st = new
+    return out
+
+
+PROPS["C11"] = {
+    "modules": ["NibiruProofs.C11"],
+    "runs": [{"model": "ovote", "n_quick": 150, "n_thorough": 2500, "nontrivial": r"^ok PV=\S+ V=[0-9a-f]"}],
+    "oracle": oracle_c11,
+    "rule": "each case is one generated history on the real oracle msg server (validators created through the real staking msg "
+            "server): DelegateFeedConsent, prevotes (valid / upper-case / malformed hashes), reveals (exact, different salt, textual "
+            "variants of the same tuples, other validator, former/stranger feeder, replays), VotePeriod changes, jailing, and block "
+            "advances through the real EndBlocker across period boundaries; non-trivial = at least one reveal was accepted",
+    "assumptions": ["the hash is modelled as an uninterpreted injective function (sha256 collision-freeness); the expected hash in the "
+                    "protocol is computed by the harness with crypto/sha256, not by the repository",
+                    "cosmossdk.io/math LegacyNewDecFromStr is a parameter (table supplied by the harness)",
+                    "heights < 2^63 (int64)"],
+}
